@@ -158,9 +158,18 @@ def channel_kind(ctx, site):
     return ("unknown:" + T, None)
 
 
+# the store's methods a user callback may call back into besides reading the state: today they
+# take no lock at all.  A frozen table, not "every getter": an accessor added later
+# (`subscriber_count()`, `is_closed()`) that takes a lock is no more callable from a callback
+# than `add_subscriber()` is today.  C13's statement allows callbacks to read the state only, so
+# its pack runs the analysis with `strict=True` (state lock only).
+CALLBACK_SAFE_GETTERS = ("get_state", "get_metrics")
+
+
 class RoleAnalysis:
-    def __init__(self, ctx):
+    def __init__(self, ctx, strict=False):
         self.ctx = ctx
+        self.strict = strict
         self.roles = roles(ctx)
         self.targets = cha_targets(ctx)
         self.edges = []      # (A, B, where, root role, detail)
@@ -187,6 +196,27 @@ class RoleAnalysis:
         A = ctx.A
         state_lock = A.lock_id(A.f_state)
         pool_lock = A.lock_id(A.f_pool)
+        # what a user callback may call back into: CALLBACK_SAFE_GETTERS (see there); shutdown
+        # and registration calls from a callback are out of the properties' scope
+        from mirq.locks import default_lock_id
+        getter_locks = set()
+        found = set()
+        for gb in ctx.prog.bodies:
+            if gb.is_closure() or gb.j.get("vis") != "Public" or gb.arg_count != 1:
+                continue
+            if (gb.j.get("impl_adt") or "").split("::")[-1] != "StoreImpl" or gb.j.get("impl_trait"):
+                continue
+            if gb.j.get("name") not in CALLBACK_SAFE_GETTERS:
+                continue
+            found.add(gb.j.get("name"))
+            if self.strict:
+                continue
+            for rb in ctx.sync_reach([gb]).values():
+                for gs in ctx.prog.sites(rb):
+                    if gs.ck in LOCK_CALLS:
+                        getter_locks.add(default_lock_id(ctx.prog, rb, ctx.prog.bp(rb).arg_term(gs.bb, 0), gs.fn))
+        self.getters_found = found
+        getter_locks.discard(state_lock)
         for role, roots in self.roles.items():
             for root in roots:
                 G = Super(ctx.prog, root, max_depth=10, inline=lambda s, c: A.metric_call(s) is None, virtual_targets=self.targets)
@@ -221,11 +251,11 @@ class RoleAnalysis:
                         gives_dispatcher = "Dispatcher" in " ".join(s.fn.get("args") or [])
                     if user:
                         H = self._held(G, k)
-                        locks = [state_lock] + ([pool_lock] if gives_dispatcher else [])
+                        locks = [state_lock] + ([pool_lock] if gives_dispatcher else []) + sorted(getter_locks)
                         for l in locks:
                             self.acq[role].add(l)
                             for h in H:
-                                self.edges.append((h, l, s.where, role, "user code called from %s while holding %s may take %s (get_state%s)" % (short(n.body.path), h, l, " / dispatch_thunk" if l == pool_lock else "")))
+                                self.edges.append((h, l, s.where, role, "user code called from %s while holding %s may take %s (%s)" % (short(n.body.path), h, l, "get_state" if l == state_lock else ("dispatch_thunk" if l == pool_lock else "a public getter of the store"))))
                         continue
                     # blocking operations
                     if A.is_send_wrapper_call(s):
@@ -246,17 +276,19 @@ class RoleAnalysis:
                         self.blocking.append({"op": "pooljoin", "chan": "pool", "waker": "RP", "held": H, "site": s, "root": root, "role": role})
 
 
-def _ra(ctx):
-    r = getattr(ctx, "_ra", None)
+def _ra(ctx, strict=False):
+    attr = "_ra_strict" if strict else "_ra"
+    r = getattr(ctx, attr, None)
     if r is None:
-        r = RoleAnalysis(ctx)
-        ctx._ra = r
+        r = RoleAnalysis(ctx, strict)
+        setattr(ctx, attr, r)
     return r
 
 
-def l1_lock_order(ctx, rep):
+def l1_lock_order(ctx, rep, strict=False):
     R = "L1"
-    ra = _ra(ctx)
+    ra = _ra(ctx, strict)
+    rep.check(set(CALLBACK_SAFE_GETTERS) <= ra.getters_found, R, "anchor:callback-safe getters", "", "public StoreImpl getters %s found" % (CALLBACK_SAFE_GETTERS,), "public StoreImpl getters missing: %s" % sorted(set(CALLBACK_SAFE_GETTERS) - ra.getters_found))
     rep.check(not ra.incomplete, R, "call-graphs-complete", "", "%d role-rooted call graphs built completely (%d nodes)" % (ra.graphs, ra.nodes), "call graphs truncated: %s" % ra.incomplete[:3])
     rep.floor(R, "role entry points analysed", ra.graphs, 40)
     from rules.controls import find_cycles
@@ -274,14 +306,25 @@ def l1_lock_order(ctx, rep):
     for (a, b), (where, detail) in sorted(info.items()):
         if a != b:
             rep.ok(R, "edge:%s->%s" % (a, b), where, detail)
+    # the sender-slot lock is a leaf: producers hold it across a (possibly blocking) send, so
+    # whoever holds it must not wait for any other lock of the store - a metrics scrape that
+    # "freezes the dispatch side" while it takes the subscriber list, an error path that calls
+    # on_error under it, stall every dispatcher behind a user callback
+    try:
+        sl = ctx.A.lock_id(ctx.A.f_tx)
+        leaf = sorted((b, info[(a, b)][0]) for (a, b) in info if a == sl and b != sl)
+        rep.check(not leaf, R, "sender-lock-is-a-leaf", leaf[0][1] if leaf else "", "nothing is acquired while %s is held" % sl,
+                  "%s is held while %s is acquired (%s): every dispatch waits behind that lock's holder, drop policies included" % (sl, [x for x, _ in leaf], info[(sl, leaf[0][0])][1] if leaf else ""))
+    except AnchorMissing as e:
+        rep.anchor_missing(R, e.what)
     rep.floor(R, "lock-order edges", len([1 for (a, b) in info if a != b]), 5)
     if not cyc and not any(a == b for (a, b) in info):
         rep.ok(R, "acyclic", "", "lock-order graph over %d locks, %d edges: acyclic, no self edge" % (len(nodes), len(info)))
 
 
-def l2_wait_for(ctx, rep):
+def l2_wait_for(ctx, rep, strict=False):
     R = "L2"
-    ra = _ra(ctx)
+    ra = _ra(ctx, strict)
     A = ctx.A
     acq = ra.acq
     # the iterator's consumer is a client thread: between two next() calls it may call any
@@ -518,3 +561,12 @@ def l3_no_waiting_under_a_lock(ctx, rep):
     rw = [s for s in ctx.prog.sites() if s.ck in WAITS and s.body.path in gb]
     rep.check(not rw, R, "reducer-thread-never-parks", rw[0].where if rw else "", "no sleep / park / condvar wait is reachable on the reducer thread",
               "the reducer thread can wait in %s: accepted actions (and stop()'s join) then depend on another thread's signal" % sorted({"%s:%s" % (short(x.body.path), x.ck.split("::")[-1]) for x in rw}))
+
+
+def l1_lock_order_strict(ctx, rep):
+    """L1 under C13's callback model: callbacks read the state and nothing else"""
+    return l1_lock_order(ctx, rep, strict=True)
+
+
+def l2_wait_for_strict(ctx, rep):
+    return l2_wait_for(ctx, rep, strict=True)
